@@ -148,6 +148,59 @@ static void check_case(const struct rimpl *im, int vects, int len, int pl, int c
 					}
 			v_count("corruptions_checked", (int64_t)vects * len * 3);
 		}
+		if (closure && len <= 320) {
+			/* two-byte corruptions: vectors from {first data, last data, P, Q} x {same, other} at byte distance 0 (other vector), 1, 8, 16, 32,
+			 * 48, 64, 128, deltas equal (01, ff) or different (01 / 80): residues of different vector lanes / unrolled iterations must be
+			 * OR-ed, never combined so that they cancel. Whether the damaged arrays are still consistent is decided by the reference
+			 * at the two positions (a data byte and the P byte at the same position with the same delta IS consistent for xor_check). */
+			int cand[4] = { 0, nsrc - 1, nsrc, vects - 1 }, nc = 0, cset[4];
+			for (int c = 0; c < 4; c++) {
+				int dup = 0;
+				for (int e = 0; e < nc; e++)
+					dup |= cset[e] == cand[c];
+				if (!dup && cand[c] >= 0)
+					cset[nc++] = cand[c];
+			}
+			static const int dd[] = { 0, 1, 8, 16, 32, 48, 64, 128 };
+			static const uint8_t d1[] = { 0x01, 0xff, 0x01 }, d2[] = { 0x01, 0xff, 0x80 };
+			for (int a = 0; a < nc; a++)
+				for (int b = 0; b < nc; b++)
+					for (int di = 0; di < 8; di++)
+						for (int pos = 0; pos + dd[di] < len; pos++)
+							for (int xi = 0; xi < 3; xi++) {
+								int va = cset[a], vb = cset[b], p2 = pos + dd[di];
+								if (va == vb && dd[di] == 0)
+									continue;
+								v[va][pos] ^= d1[xi];
+								v[vb][p2] ^= d2[xi];
+								int consistent = 1;
+								for (int w = 0; w < 2; w++) {
+									int j = w ? p2 : pos;
+									uint8_t pp = 0, qq = 0;
+									for (int i = nsrc - 1; i >= 0; i--) {
+										pp ^= v[i][j];
+										qq = rgf_mul_slow(qq, 2) ^ v[i][j];
+									}
+									if (pp != v[nsrc][j] || (npar == 2 && qq != v[nsrc + 1][j]))
+										consistent = 0;
+								}
+								r = (int)PCALL(im->f, vects, len, arr);
+								v[va][pos] ^= d1[xi];
+								v[vb][p2] ^= d2[xi];
+								v_eval();
+								if ((r == 0) != consistent) {
+									snprintf(key, sizeof key, "%s two-byte vects=%d len=%d", im->name, vects, len);
+									v_violation(key, "corruption ^%02x of vector %d byte %d together with ^%02x of vector %d byte %d: arrays are %s, check returned %d", d1[xi], va, pos, d2[xi], vb, p2,
+										    consistent ? "still consistent" : "inconsistent", r);
+									if (++nfail > 50) {
+										V_END();
+										g_reset();
+										return;
+									}
+								}
+								v_count("two_byte_corruptions_checked", 1);
+							}
+		}
 		V_END();
 	} else {
 		snprintf(key, sizeof key, "%s fault vects=%d len=%d pl=%d", im->name, vects, len, pl);
